@@ -968,6 +968,18 @@ func checkC18(w *World) {
 		s, oks := int64(0), false
 		if v, ok := fields[r.CtxSizeField]; ok {
 			s, oks = constInt(v)
+			if !oks {
+				// len of a slice literal with a fixed number of elements
+				if c, isCall := v.(*ssa.Call); isCall && isLenOf(c, nil) {
+					if sl, isSl := stripConv(resolve(c.Call.Args[0])).(*ssa.Slice); isSl {
+						if arr, isArr := sl.X.(*ssa.Alloc); isArr && sl.Low == nil && sl.High == nil {
+							if at, isAT := arr.Type().(*types.Pointer).Elem().(*types.Array); isAT {
+								s, oks = at.Len(), true
+							}
+						}
+					}
+				}
+			}
 		}
 		w.check(P, "R18.1", "Exec: context size 1", exec.Pos(), oks && s == 1, fmt.Sprintf("seeded size %d", s))
 	} else {
